@@ -79,3 +79,8 @@ def run(ctx):
     ctx.ob('R26.2', e.n, 'the only assignment to n is n = n >> 7 (strictly decreasing under the guard n >> 7 > 0)', okf, f'{len(asg)} assignments', where(e, e.line))
     lg = [g for c in pushes for g in guard_strings(e, c.bb)]
     ctx.ob('R26.2', e.n, 'loop guard is n >> 7 > 0', 'Gt(Shr(n,7),0)==True' in lg and 'Gt(Shr(n,7),0)==False' in lg, f'{lg}', where(e, e.line))
+
+
+# sensitivity pack (thorough tier): each seeded edit must be reported by the named rule instance
+MUTANTS = [{'name': 'overflow-mask-widened', 'file': 'crates/ordinals/src/varint.rs', 'old': 'value & 0b0111_1100 != 0', 'new': 'value & 0b0111_1000 != 0', 'expect': ('R26.1', 'varint::decode', 'shl-lossy')},
+           {'name': 'continuation-bit-dropped', 'file': 'crates/ordinals/src/varint.rs', 'old': 'v.push(n.to_le_bytes()[0] | 0b1000_0000);', 'new': 'v.push(n.to_le_bytes()[0] | 0b0100_0000);', 'expect': ('R26.2', 'encode_to_vec', 'continuation bit')}]
